@@ -100,7 +100,18 @@ func runC03(c *Ctx) {
 			continue
 		}
 		k := fkey(site.Parent())
-		R.Check(k == "(*Server).Handshake" || k == "(*Server).potentialConnUpgrade", "C03.R1", "NewReader-site:"+k, c.at(site), "a connection has one reader (a second one only for the TLS stream after an upgrade): bytes buffered by a reader are never dropped", "designated construction site", "buffer.NewReader is constructed in "+fname(site.Parent())+": bytes the previous reader already buffered are lost, so the result depends on segmentation")
+		onTLS := false
+		src := core.Strip(site.Common().Args[1])
+		if mi, ok := src.(*ssa.MakeInterface); ok {
+			src = core.Strip(mi.X)
+		}
+		if mi, ok := src.(*ssa.MakeInterface); ok {
+			src = core.Strip(mi.X)
+		}
+		if call, ok := src.(*ssa.Call); ok && core.FuncIs(core.StaticCallee(call), "crypto/tls", "Server") {
+			onTLS = true // a reader for the freshly upgraded TLS stream
+		}
+		R.Check(k == "(*Server).Handshake" || onTLS, "C03.R1", "NewReader-site:"+k, c.at(site), "a connection has one reader (a second one only for the TLS stream after an upgrade): bytes buffered by a reader are never dropped", "designated construction site", "buffer.NewReader is constructed in "+fname(site.Parent())+": bytes the previous reader already buffered are lost, so the result depends on segmentation")
 	}
 
 	// ---------- R2: exact window
